@@ -15,6 +15,7 @@ HARNESSES = [
     M("c08_write_target_then_user", "target modules first, then caller-supplied ones, in order (> 20 min)", "thorough", timeout=3400, est_gb=14, mem_gb=30), M("c08_write_zero_id_and_user", "zero-id target skipped, caller-supplied listed"),
     M("c08_write_suppressed", "a target mapping wholly inside a caller-supplied one is suppressed (equal end addresses), not even read"),
     M("c08_entry_point_module_first", "enumerate_mappings: the mapping containing AT_ENTRY is moved to the front, nothing lost (maps parsing and aggregation scripted)"),
+    M("c02_so_version_name_nonascii_separator","probe","thorough",timeout=1200,est_gb=8,mem_gb=20), M("c02_so_version_name_fourth_alnum","probe","thorough",timeout=1200,est_gb=8,mem_gb=20), M("c02_so_version_name_third_alnum","probe","thorough",timeout=1200,est_gb=8,mem_gb=20),
     M("c02_so_version_ascii_separator","probe","thorough",timeout=1500,est_gb=10,mem_gb=20), M("c02_so_version_2byte_separator","probe","thorough",timeout=1500,est_gb=10,mem_gb=20),
     M("c08_write_listed_no_soname", "unreadable SONAME: listed without it", "thorough", timeout=3000, est_gb=14, mem_gb=30),
     M("c08_is_interesting", "is_interesting predicate"), M("c08_is_contained_in", "is_contained_in predicate"),
